@@ -219,7 +219,12 @@ pub fn exec_lines(lines: &[String], out: &mut Out) {
             if case.is_some() { "ok".to_string() } else { "bad-op".to_string() }
         } else {
             match (case.as_mut(), l.strip_prefix("pst ")) {
-                (Some(c), Some(op)) => c.exec(op),
+                // a Rust panic of the implementation (e.g. an `unreachable!` arm of the status machine) is the
+                // reply `panic` of this line; the case is dead afterwards (its states may be half-updated)
+                (Some(c), Some(op)) => match std::panic::catch_unwind(std::panic::AssertUnwindSafe(|| c.exec(op))) {
+                    Ok(r) => r,
+                    Err(_) => "panic".to_string(),
+                },
                 _ => "bad-op".into(),
             }
         };
